@@ -509,24 +509,19 @@ def check_member_parser(fx, rep, rule):
                 if good:
                     d = dict(w[3])
                     good = d.get("ty") == C_("ty") and d.get("obfuscated") == C_("obf") and d.get("arguments") == C_("args")
-                    # class split: `let mut it = orig.rsplitn(2, '.')`; original = it.next()?, original_class = it.next()
+                    # class split at the LAST dot (`rsplitn(2, '.')` + two next(), or `rsplit_once('.')`): with a dot the name is the
+                    # part after it and the class the part before; without one the whole text is the name and there is no class
                     o1, o2 = d.get("original"), d.get("original_class")
-                    itp = None
-                    if o1 and o1[0] == "payload" and o1[2] == "Some" and o1[1][0] == "mcall" and R.is_next(o1[1][1]) and o2 and o2[0] == "mcall" \
-                            and R.is_next(o2[1]) and o1[1][2] == o2[2] and o1[1][3] < o2[3] and o1[1][2][0][0] == "place":
-                        itp = o1[1][2][0][1]
-                    split_ok = False
-                    if itp is not None:
-                        for n_ in F.walk(b["body"]):
-                            if n_.get("k") == "Block":
-                                for s_ in n_["stmts"]:
-                                    if s_["k"] == "Let" and s_["pat"]["k"] == "Bind" and s_["pat"]["name"] == itp and s_.get("init") is not None:
-                                        i_ = F.strip(s_["init"])
-                                        if F.is_call(i_, "core::str::<impl str>::rsplitn") and F.strip(i_["args"][1]).get("lit", {}).get("v") == 2 \
-                                                and F.strip(i_["args"][2]).get("lit", {}).get("v") == ".":
-                                            v_ = F.strip(i_["args"][0])
-                                            if v_.get("k") == "Var" and record_wiring(st.env.get(v_["id"], ("?",)), idx_of) == C_("orig"):
-                                                split_ok = True
+                    rs = call("core::str::rsplit_once", C_("orig"), ("lit", "char", "."))
+                    asg0 = fc.assignment(tuple((record_wiring(a_, idx_of), p_) for a_, p_ in st.conds))
+                    has_dot = asg0.get(fc.canon_atom(("is", rs, "Some"))[0])
+                    if has_dot is True:
+                        pr_ = mk_payload(rs, "Some", "0")
+                        split_ok = o1 == mk_field(pr_, "1") and o2 == some(mk_field(pr_, "0"))
+                    elif has_dot is False:
+                        split_ok = o1 == C_("orig") and o2 == NONE
+                    else:
+                        split_ok = False
                     good = good and split_ok
                     lm = d.get("line_mapping")
                     # line mapping only from the captured numbers (presence rule is C01.P1)
